@@ -208,10 +208,31 @@ def LimitsCovered (adv enf : Limits) : Prop :=
 
 instance (a e : Limits) : Decidable (LimitsCovered a e) := by unfold LimitsCovered; exact inferInstance
 
+/-- The repair proposed in fixes/C12-enforce-advertised.diff (`configCoveringAdvertised`): a copy of the
+    populated Config in which every enforced limit is at least the advertised one. -/
+def coverConfig (c : Config) (p : OwnParams) : Config :=
+  let icrw := max c.initialConnectionReceiveWindow p.initialMaxData
+  let isrw := max c.initialStreamReceiveWindow
+    (max p.initialMaxStreamDataBidiLocal (max p.initialMaxStreamDataBidiRemote p.initialMaxStreamDataUni))
+  { initialConnectionReceiveWindow := icrw
+    maxConnectionReceiveWindow := max c.maxConnectionReceiveWindow icrw
+    initialStreamReceiveWindow := isrw
+    maxStreamReceiveWindow := max c.maxStreamReceiveWindow isrw
+    maxIncomingStreams := max c.maxIncomingStreams p.maxBidiStreamNum
+    maxIncomingUniStreams := max c.maxIncomingUniStreams p.maxUniStreamNum
+    enableDatagrams := c.enableDatagrams || decide (p.maxDatagramFrameSize > 0)
+    maxIdleTimeout := max c.maxIdleTimeout p.maxIdleTimeout }
+
+/-- the Config the components of a spec-driven client are built from: the populated user Config — or, when
+    the generated shape fact `specConfigCoversAdvertised` says that newUClientConnection recomputes s.config
+    from the populated transport parameters before preSetup, its `coverConfig` -/
+def specConfig (user : Config) (own : OwnParams) : Config :=
+  if Limits.specConfigCoversAdvertised then coverConfig (populateConfig user) own else populateConfig user
+
 /-- a spec-driven client: spec parameter list + user Config -/
 def specAdvertised (ps : ParamList) : Limits := advertised (populate ps)
 def specEnforced (ps : ParamList) (user : Config) : Limits :=
-  enforced (populateConfig user) (populate ps).activeConnectionIDLimit
+  enforced (specConfig user (populate ps)) (populate ps).activeConnectionIDLimit
 def SpecCovered (ps : ParamList) (user : Config) : Prop := LimitsCovered (specAdvertised ps) (specEnforced ps user)
 instance (ps : ParamList) (u : Config) : Decidable (SpecCovered ps u) := by unfold SpecCovered; exact inferInstance
 
